@@ -40,7 +40,8 @@ PROBES = ["render_slower_than_frame_duration", "region_ends_on_bottom_row",
           "size_rejected", "not_a_tty", "empty_fill", "zero_frame_indefinite",
           "old_api", "old_api_animation", "tall_still_scrolls",
           "ctrl_c_during_inter_frame_wait", "infinite_animation_ended_by_ctrl_c",
-          "ctrl_c_as_next_frame_write_begins", "ctrl_c_as_first_cursor_return_begins"]
+          "ctrl_c_as_next_frame_write_begins", "ctrl_c_as_first_cursor_return_begins",
+          "frame_of_an_earlier_animation_on_screen"]
 COMPONENTS = {
     "real": ["Renderable.draw/_animate_/_init_render_", "RenderIterator", "padding.*",
              "BaseImage.draw/_display_animated/_renderer/_format_render", "ImageIterator",
